@@ -469,3 +469,81 @@ Proof.
   exists [2 # 5], [([0], [3]); ([6 # 5], [2 # 5])], (6 # 5), (2 # 5).
   split; [left; reflexivity|]. split; [reflexivity|]. repeat split; vm_compute; reflexivity.
 Qed.
+
+(* ================= creation routes: reported centres = centres in use ================= *)
+Section RoutesP.
+  Context {C R : Type} (dist : R -> C -> Q).
+  Implicit Types (given : option (list C)) (made means cs : list C) (chunks : list (chunk R)).
+
+  (* the pinned routes report the centres the records were split by: the given ones, or the made ones whatever the
+     oracle returned; the data means are reported only when there are no centres at all *)
+  Theorem route_reports_centres_in_use given name num made means cs :
+    centres_in_use given name num made = Some cs -> route_centres given name num made means = cs.
+  Proof. unfold route_centres. intros ->. reflexivity. Qed.
+
+  Theorem route_in_use_cases given name num made :
+    (forall cs, given = Some cs -> centres_in_use given name num made = Some cs) /\
+    (given = None -> name = false -> num = true -> centres_in_use given name num made = Some made) /\
+    (given = None -> name = true -> centres_in_use given name num made = None).
+  Proof.
+    repeat split.
+    - intros cs ->. reflexivity.
+    - intros -> -> ->. reflexivity.
+    - intros -> ->. reflexivity.
+  Qed.
+
+  Lemma row_to_length cs r : length (row_to dist cs r) = length cs.
+  Proof. unfold row_to. apply map_length. Qed.
+
+  (* every record stored in patch p has the REPORTED centre p as a nearest reported centre: centres given or made,
+     any oracle, any chunking, any arrival order of the (sub-)chunks *)
+  Theorem route_reproduces_partition given name num made means cs chunks arrived p l r :
+    centres_in_use given name num made = Some cs -> cs <> [] -> Permutation arrived chunks ->
+    route_data dist given name num made arrived p = Some l -> In r l ->
+    own_centre_nearest (row_to dist (route_centres given name num made means) r) p = true.
+  Proof.
+    intros U NE P H Hin. rewrite (route_reports_centres_in_use _ _ _ _ _ _ U).
+    unfold route_data in H. rewrite U in H. simpl in H.
+    apply (apply_belongs_any_order (nearest dist cs) chunks arrived p l r P H) in Hin as [_ Hp].
+    apply own_centre_nearest_spec. subst p. unfold nearest. split.
+    - apply argmin_lt. intro E. apply NE. apply length_zero_iff_nil. rewrite <- (row_to_length cs r), E. reflexivity.
+    - apply argmin_min.
+  Qed.
+
+  Corollary route_create_any_oracle made means chunks arrived p l r :
+    made <> [] -> Permutation arrived chunks ->
+    route_data dist None false true made arrived p = Some l -> In r l ->
+    own_centre_nearest (row_to dist (route_centres None false true made means) r) p = true.
+  Proof. intros NE. apply (route_reproduces_partition None false true made means made); [reflexivity|exact NE]. Qed.
+
+  (* a catalog built from the same records with patch_centers = <the first catalog> (= its reported centres), whatever
+     else is passed along, however the records are chunked: the same patches *)
+  Theorem route_rebuild_same_partition given name num made means cs chunks chunks' name' num' made' p :
+    centres_in_use given name num made = Some cs ->
+    concat (map recs chunks') = concat (map recs chunks) ->
+    route_data dist (Some (route_centres given name num made means)) name' num' made' chunks' p =
+    route_data dist given name num made chunks p.
+  Proof.
+    intros U E. rewrite (route_reports_centres_in_use _ _ _ _ _ _ U).
+    unfold route_data. rewrite U. simpl. apply apply_any_chunking. exact E.
+  Qed.
+End RoutesP.
+
+(* handing the loader the caller's argument instead of the centres in use: in Create mode the argument is None, the
+   catalog reports the data means, a stored record is strictly nearer to another reported centre and the catalog
+   rebuilt from the reported centres has other patches *)
+Theorem route_arg_refuted :
+  exists (made means : list Q) (chunks : list (chunk Q)) (r : Q),
+    let dist := fun x c : Q => (x - c) * (x - c) in
+    route_data dist None false true made chunks 1 = Some [r; 20] /\
+    own_centre_nearest (row_to dist (route_centres None false true made means) r) 1 = true /\
+    own_centre_nearest (row_to dist (route_centres_arg None means) r) 1 = false /\
+    route_data dist (Some (route_centres_arg None means)) false false [] chunks 1 = Some [20].
+Proof.
+  exists [0; 10], [2; 13], [ {| recs := [0; 4]; col := None |}; {| recs := [6; 20]; col := None |} ], 6.
+  vm_compute. repeat split.
+Qed.
+
+(* the checker's model column is the nearest reported centre of every row *)
+Lemma nearest_rows_spec rows : nearest_rows rows = map argmin rows.
+Proof. reflexivity. Qed.
